@@ -114,6 +114,10 @@ pub fn generate(arm: &str, seed: u64, o: ArmOpts) -> Scenario {
     // instances whose cost-to-go leaves the isize range get no dominance rule (its coordinates are clamped values-to-go: ties)
     let want_dom = want_dom && table.v0 != 3 * (1isize << 61);
     let dominance = if want_dom { Some(rng.pick(&[DomRule::Exact, DomRule::FinerKey, DomRule::Sim, DomRule::Sim]).clone()) } else { None };
+    // depth-free states carry the whole column of values-to-go as coordinates: "strictly better somewhere" may then come from a layer
+    // other than the one the states are compared at, i.e. the value-to-go rules are no longer strict in the total (ties: see DESIGN.md
+    // section 7, items 1 and 8). Depth-free and long-arc models therefore only get the simulation rule, which is a true dominance.
+    let dominance = if !table.depth_in_state { dominance.map(|_| DomRule::Sim) } else { dominance };
     let dom_weaken_per_mille = if o.perturb && dominance.is_some() && rng.chance(1, 4) { 200 } else { 0 };
     let cache_lossy_per_mille = if o.perturb && cache && o.force_cache.is_none() && rng.chance(1, 4) { 150 } else { 0 };
     let maxt = if o.max_threads == 0 { 4 } else { o.max_threads };
